@@ -46,10 +46,16 @@ bool on_start(m_mod_t *m) {
     }
     return start_ret;
 }
+#ifdef VF_INNER_STOP
+static int restart_r = 1;            /* result of the (single) m_mod_start(self) made from inside on_stop */
+void on_stop(m_mod_t *m) { n_stop++; state_in_stop = m->state; if (n_stop == 1) restart_r = m_mod_start(m); }
+#else
 void on_stop(m_mod_t *m) { n_stop++; state_in_stop = m->state; }
+#endif
 void on_evt(m_mod_t *m, const m_queue_t *const e) { n_evt++; }
 bool on_eval(m_mod_t *m) { n_eval++; return true; }
 
+static _Bool has_tok_pre(uint64_t t) { return t > 0; }
 int vf_main(void) {
     m_ctx_t *c = vf_the_ctx = vf_l1_ctx();
     c->modules = m_map_new(0, mem_dtor); VF_ASSUME(c->modules != NULL);
@@ -77,6 +83,39 @@ int vf_main(void) {
     _Bool denied_ctx_inside = 0;                   /* M_MOD_DENY_CTX only matters while curr_mod is set: nested calls */
 
     VF_PICK(op, 5);
+#ifdef VF_INNER_STOP
+    /* C01.step.restartinstop: the stop callback restarts its own module (STOPPED -> RUNNING is a documented edge, so
+     * the nested call is legal whenever the module is really STOPPED).  Only the two calls that run on_stop from a
+     * live module are explored, with an accepting start callback; the oracle is implementation-agnostic. */
+    VF_ASSUME(op >= 3 && start_ret);
+    int r2 = 0;
+    if (op == 3) r2 = m_mod_stop(mod); else r2 = m_mod_deregister(&self_ref);
+    if (op == 4 && pre != M_MOD_ZOMBIE && !((mod->flags & M_MOD_PERSIST) && looping)) {
+        VF_CHECK(r2 == 0, "deregister succeeds from any live state");
+#ifdef VF_KF_C01_restart_in_deregister
+        VF_ASSUME(restart_r != 0);   /* known finding: excluded = the restart from on_stop was accepted during a deregistration */
+#endif
+        VF_CHECK(mod->state == M_MOD_ZOMBIE, "deregistration is final, whatever on_stop did");
+        VF_CHECK(c->stats.running_modules == others, "running-module count equals the number of RUNNING modules (a zombie is not running)");
+        VF_CHECK(n_stop >= n_start + ((pre & (M_MOD_RUNNING | M_MOD_PAUSED)) ? 1 : 0), "every start callback of a deregistered module was followed by its stop callback");
+        VF_WITNESS("dereg");
+    } else if (op == 3 && (pre & (M_MOD_RUNNING | M_MOD_PAUSED)) && has_tok_pre(tok)) {
+        VF_CHECK(r2 == 0, "stop from RUNNING/PAUSED succeeds");
+        VF_CHECK(n_stop == 1, "stop callback exactly once");
+        if (restart_r == 0) {
+            VF_CHECK(mod->state == M_MOD_RUNNING && n_start == 1, "restarted from on_stop: RUNNING again, start callback once");
+            VF_CHECK(c->stats.running_modules == others + 1, "running-module count equals the number of RUNNING modules");
+        } else {
+            VF_CHECK(mod->state == M_MOD_STOPPED && n_start == 0, "restart refused: STOPPED");
+            VF_CHECK(c->stats.running_modules == others, "running-module count equals the number of RUNNING modules");
+        }
+        VF_WITNESS("stop");
+    } else {
+        VF_CHECK(r2 < 0 && mod->state == pre && n_stop == 0 && n_start == 0, "refused call changes nothing");
+    }
+    VF_WITNESS("end_restartinstop");
+    return 0;
+#else
     int r = 0;
     m_mod_states exp = pre;
     int e_start = 0, e_stop = 0, e_tstart = 0, e_tstop = 0;
@@ -152,4 +191,5 @@ int vf_main(void) {
     }
     VF_WITNESS("end");
     return 0;
+#endif
 }
